@@ -55,8 +55,16 @@ TFsize == /\ Step("FsizeStore")
                      "C12:StoreToDisk returned success under a write failure but the backup does not restore the snapshot">> >>), "BAD")
           /\ UNCHANGED <<drift, view, phase, created, closedf, full>>
 TDamage == /\ Step("Damage") /\ bad' = Note(bad, First(Allowed("C11")), "BAD") /\ UNCHANGED <<drift, view, phase, created, closedf, full>>
+(* Close racing StoreToDisk (growth, Shutdown.tla): success still means an exactly restorable backup (C05);
+   termination and the outcome set of Shutdown.tla are compared as binding evidence *)
+TShut == /\ Step("Shut") /\ UNCHANGED <<view, phase, created, closedf, full>>
+         /\ bad' = Note(bad, First(<< <<Ev.bret = "ok" => Ev.loaded /\ Ev.items = Ev.view /\ Ev.count = Len(Ev.view),
+                       "C05:StoreToDisk returned success while the instance was being closed, but the backup does not restore the stored snapshot">> >>), "BAD")
+         /\ drift' = Note(drift, First(<< <<Ev.store_returned /\ Ev.close_returned, "Close and StoreToDisk did not both return (Shutdown.tla: Termination)">>,
+                       <<Ev.bret \in {"ok", "shutdown"}, "StoreToDisk returned an error other than ErrShutdown (Shutdown.tla: BackupOutcome)">>,
+                       <<"live" \in DOMAIN Ev => Ev.live = 0 /\ Ev.allocerrs = 0, "blocks leaked or freed twice when Close raced a backup">> >>), "DRIFT")
 TDone == l = N + 1 /\ UNCHANGED tvars
-TNext == TGen \/ TSys \/ TCrashLoad \/ TFsize \/ TDamage \/ TDone
+TNext == TGen \/ TSys \/ TCrashLoad \/ TFsize \/ TDamage \/ TShut \/ TDone
 TSpec == TInit /\ [][TNext]_tvars
 Good == bad = ""
 =============================================================================
